@@ -14,7 +14,18 @@ def sh(cmd, cwd=None, env=None):
     return subprocess.run(cmd, shell=True, text=True, cwd=cwd, env=env, stdout=subprocess.PIPE, stderr=subprocess.STDOUT)
 
 
+def snapshot():
+    """The checks run from a copy of /verif taken now: harness edits made while the matrix runs must not reach it."""
+    snap = "/tmp/verif-snap-%s-%d" % ("benignmx", os.getpid())
+    shutil.rmtree(snap, ignore_errors=True)
+    shutil.copytree(VERIF, snap, ignore=shutil.ignore_patterns(".git", "replays", "evidence"))
+    os.makedirs(os.path.join(snap, "replays"), exist_ok=True)
+    os.makedirs(os.path.join(snap, "evidence"), exist_ok=True)
+    return snap
+
+
 def main():
+    SNAP = snapshot()
     names = sys.argv[1:] or sorted(os.path.basename(os.path.dirname(p)) for p in glob.glob(os.path.join(VERIF, "benign", "*", "patch.diff")))
     out_path = os.path.join(VERIF, "benign", "MATRIX.json")
     res = json.load(open(out_path)) if os.path.exists(out_path) else {}
@@ -31,7 +42,7 @@ def main():
             env = dict(os.environ, VERIF_REPO=wt, VERIF_OUT_DIR="/tmp/verif-benignmx-out")
             row = {}
             for cid in ALL:
-                c = sh("./check %s quick" % cid, cwd=VERIF, env=env)
+                c = sh("./check %s quick" % cid, cwd=SNAP, env=env)
                 alarm = c.returncode != 0
                 first = ""
                 m = re.search(r"^--- (.*)$", c.stdout, re.M)
@@ -48,6 +59,7 @@ def main():
             shutil.rmtree("/tmp/verif-benignmx-out", ignore_errors=True)
         json.dump(res, open(out_path, "w"), indent=1, sort_keys=True)
     sh("git -C /repo worktree prune")
+    shutil.rmtree(SNAP, ignore_errors=True)
 
 
 if __name__ == "__main__":
